@@ -1,6 +1,8 @@
 package main
 
 import (
+	"go/types"
+
 	"golang.org/x/tools/go/ssa"
 )
 
@@ -122,6 +124,62 @@ func registerBytesBuffer() {
 				return in.zeroResults(fn)
 			}
 			panic(abort("bytes.Buffer." + m + " on opaque content"))
+		}
+	}
+}
+
+// sync.Pool: Get returns an item that was Put earlier (any of them may have been dropped: the model explores both
+// "reused" and "fresh") or calls New. What matters for the properties is that a pooled object is SHARED between the
+// caller that put it back and the next caller that gets it.
+func registerSyncPool() {
+	newField := func(fn *ssa.Function) int {
+		st := fn.Signature.Recv().Type().(*types.Pointer).Elem().Underlying().(*types.Struct)
+		for i := 0; i < st.NumFields(); i++ {
+			if st.Field(i).Name() == "New" {
+				return i
+			}
+		}
+		return -1
+	}
+	intrinsics["(*sync.Pool).Get"] = func(in *Interp, fn *ssa.Function, a []Value) Value {
+		p := a[0].(*Value)
+		if in.pools == nil {
+			in.pools = map[*Value][]Value{}
+		}
+		if items := in.pools[p]; len(items) > 0 {
+			if in.branch(in.freshBool("pool.reuses.item")) {
+				it := items[len(items)-1]
+				in.pools[p] = items[:len(items)-1]
+				in.trace = append(in.trace, "sync.Pool.Get returns an item put back earlier")
+				return it
+			}
+		}
+		i := newField(fn)
+		nf := (*p).(Struct)[i]
+		if isNilValue(nf) {
+			return Iface{}
+		}
+		return in.call(nf, nil)
+	}
+	intrinsics["(*sync.Pool).Put"] = func(in *Interp, fn *ssa.Function, a []Value) Value {
+		p := a[0].(*Value)
+		if in.pools == nil {
+			in.pools = map[*Value][]Value{}
+		}
+		in.pools[p] = append(in.pools[p], a[1])
+		return nil
+	}
+	// trimming an opaque document: blobs carry no trailing white space in the model; the result aliases the argument
+	for _, n := range []string{"bytes.TrimSuffix", "bytes.TrimRight", "bytes.TrimSpace"} {
+		prev := intrinsics[n]
+		intrinsics[n] = func(in *Interp, fn *ssa.Function, a []Value) Value {
+			if s, ok := a[0].(Slice); ok && s.Seq != nil && s.Seq.Blob != nil {
+				return s
+			}
+			if prev != nil {
+				return prev(in, fn, a)
+			}
+			return useReal{}
 		}
 	}
 }
